@@ -5,7 +5,7 @@
    unforgeability are explicit hypotheses of each theorem.  The share `s` is ARBITRARY
    (adversarial); `g` is the published version. *)
 From Coq Require Import List NArith Bool.
-From Verif Require Import Model.MutVerify Proofs.MutVerify.
+From Verif Require Import Model.MutVerify Proofs.MutVerify Proofs.MutVerifyComplete.
 Import ListNotations.
 Local Open Scope N_scope.
 
@@ -61,6 +61,23 @@ Theorem readcap_cannot_forge :
     published (s_seqnum V s) (s_root_hash V s).
 Proof. exact readcap_cannot_forge_ok. Qed.
 Print Assumptions readcap_cannot_forge.
+
+(* completeness of the reader's checks ("if k intact shares are reachable the read succeeds", at
+   the level of the checks): a share exactly as published -- key matching the cap, signature over
+   its own prefix, hash chains consistent with its root -- is accepted; rejection therefore always
+   means the share differs from what the write-cap holder stored *)
+Theorem genuine_share_accepted :
+  forall (V : Type) (pair h_blk : V -> V -> V) (h_fp : V -> V) (verify : V -> V -> V -> bool)
+         (prefix_of : N -> V -> V) (veq : V -> V -> bool),
+    (forall a b : V, veq a b = true <-> a = b) ->
+    forall (fingerprint : V) (g : share V) (shnum seg : N),
+      h_fp (s_pubkey V g) = fingerprint ->
+      verify (s_pubkey V g) (s_signature V g) (prefix_of (s_seqnum V g) (s_root_hash V g)) = true ->
+      root_from V pair (root_from V pair (h_blk (s_salt V g seg) (s_block V g seg)) seg (s_block_path V g seg))
+                shnum (s_share_path V g) = s_root_hash V g ->
+      read_accepts V pair h_blk h_fp verify prefix_of veq fingerprint g shnum seg = true.
+Proof. exact genuine_share_accepted_ok. Qed.
+Print Assumptions genuine_share_accepted.
 
 (* Merkle binding used above *)
 Theorem merkle_path_binds_leaf :
